@@ -241,6 +241,7 @@ PROPS = {
         "jobs": [
             {"test": "TestC14", "quick": 25000, "thorough": 1400000, "shards_thorough": 14},
             {"test": "TestC14DFS", "quick": 30000, "thorough": 200000, "shards_thorough": 5},
+            {"test": "TestC15", "quick": 2500, "thorough": 60000, "shards_thorough": 14},
         ],
         "rule": "The real msg.Box under a cooperative scheduler (yield hook, build tag verif): 1..3 receiver threads (one per sender identity, 1..4 "
                 "messages each over 1..2 topics) and 1..2 send threads (1..2 Sends each) park at every yield point (outside the box's critical "
@@ -248,7 +249,11 @@ PROPS = {
                 "ALL interleavings of the small configurations (1 receiver x 2 messages + 1 Send; 2 receivers x 1 message + 1 Send; thorough: 3 more) "
                 "by re-execution DFS. Oracle when all calls have returned, without a further Send: every message received on a topic that was sent "
                 "on was handed to the dispatcher exactly once, per (topic, sender) in arrival order, nothing invented. Non-trivial = a receive call "
-                "was inside storeOrForward while a Send on the same topic was in flight. Distinct = the interleaving (sequence of (thread, point)).",
+                "was inside storeOrForward while a Send on the same topic was in flight. Distinct = the interleaving (sequence of (thread, point)). "
+                "In a third of the random cases the buffer's topics-in-flight limit equals the number of topics of the busiest sender (exactly at the "
+                "documented limit). TestC15 (the model-based check of C15) also runs here: its sequential histories with the epoch clock, collections "
+                "and limits decide the same exactly-once clause for messages whose sender is within the limits and whose topic is still alive "
+                "(a message that must be accepted is handed over by the next Send on its topic, once).",
         "exhaustive_claim": False,
         "exhaustive_parts": "TestC14DFS is exhaustive per listed configuration up to the stated execution bound, within the generator switch of known finding L18; TestC14 samples",
         "assumptions": COMMON_ASSUME + ["interleavings at yield-point granularity (yield points sit at every lock boundary of msg.Box outside its critical sections)",
